@@ -333,8 +333,10 @@ class Canon(object):
                 self._canon_function(n, cls, m, outer_first=mine)
 
     # ---------------------------------------------------------------- new optional parameters nobody passes
-    def _passed_somewhere(self, fname, pname, index, self_fn=None):
-        """Does any call in the package to a function of this name pass the parameter (by keyword, by position, or through * / **)?"""
+    def _passed_somewhere(self, fname, pname, index, self_fn=None, default=None):
+        """Does any call in the package to a function of this name pass the parameter (by keyword, by position, or through * / **)?
+        A call that passes, by keyword, a literal equal to the parameter's own default passes nothing new: it does not count, and
+        when no other call passes the parameter the redundant keyword is removed from those calls."""
         key = (fname, pname, index)
         cache = self.__dict__.setdefault('_passed_cache', {})
         if key in cache:
@@ -360,8 +362,13 @@ class Canon(object):
                     n -= 1
                 other_arity.append(n)
         res = False
+        redundant = []
         for c in calls.get(fname, []):
-            if any(k.arg == pname for k in c.keywords):
+            kws = [k for k in c.keywords if k.arg == pname]
+            if kws and default is not None and all(_same_literal(k.value, default) for k in kws):
+                redundant.append((c, kws))
+                continue
+            if kws:
                 res = True
                 break
             if any(k.arg is None for k in c.keywords) or any(isinstance(a, ast.Starred) for a in c.args):
@@ -370,6 +377,9 @@ class Canon(object):
             if index is not None and len(c.args) > index and not any(len(c.args) <= n for n in other_arity):
                 res = True
                 break
+        if not res:
+            for c, kws in redundant:
+                c.keywords = [k for k in c.keywords if k not in kws]
         cache[key] = res
         return res
 
@@ -398,7 +408,7 @@ class Canon(object):
             if not (isinstance(d, ast.Constant) or (isinstance(d, ast.UnaryOp) and isinstance(d.operand, ast.Constant))):
                 continue
             call_idx = None if idx is None else (idx - 1 if is_method else idx)
-            if self._passed_somewhere(fn.name, name, call_idx, fn):
+            if self._passed_somewhere(fn.name, name, call_idx, fn, default=d):
                 continue
             if name in assigned:
                 # `p=None` ... `if p is None: p = <today's value>`: the parameter becomes a local that starts at its default
@@ -1584,6 +1594,15 @@ def _flat(stmts, may_be_empty=False):
         elif s is not None:
             out.append(s)
     return out or ([] if may_be_empty else [ast.Pass()])
+
+
+def _same_literal(a, b):
+    """Two literal expressions (constants, signed constants) denoting the same value of the same type."""
+    try:
+        x, y = ast.literal_eval(a), ast.literal_eval(b)
+    except (ValueError, SyntaxError, TypeError):
+        return False
+    return type(x) is type(y) and x == y
 
 
 def canonicalise(prog):
